@@ -35,7 +35,7 @@ import (
 //	S:k:v   sstore      L  log0       P:amt  pay amt to the fresh address X
 //	D:amt   staking.delegate(origin, val, amt)   — the origin's coins, by grant     (d:amt: failure ignored)
 //	G:amt   staking.delegate(puppet, val, amt)   — the puppet's own coins
-//	W       distribution.withdrawDelegatorRewards(puppet, val)
+//	W       distribution.withdrawDelegatorRewards(puppet, val)      C   distribution.claimRewards(puppet, 10)
 //	[ … ]   inner frame (self call, failure ignored by the outer frame);  [ … ]R the inner frame ends with REVERT
 type asm struct {
 	code   []byte
@@ -161,6 +161,24 @@ type puppetRef struct { // the property's own semantics of a script: a reverted 
 	dE, dP, dX   *big.Int // bank balance changes apart from the fee
 	bondE, bondP *big.Int
 	logs         int
+	// staking rewards waiting for the origin / the contract at the validator: the distribution module pays them out
+	// with the first message that touches the delegation (delegate, undelegate, withdraw, claim); nil = none
+	pendE, pendP *big.Int
+}
+
+// payE / payP: the first staking or distribution message of the origin / the contract collects what was pending
+func (r *puppetRef) payE() {
+	if r.pendE != nil {
+		r.dE.Add(r.dE, r.pendE)
+		r.pendE = nil
+	}
+}
+
+func (r *puppetRef) payP() {
+	if r.pendP != nil {
+		r.dP.Add(r.dP, r.pendP)
+		r.pendP = nil
+	}
 }
 
 func (r puppetRef) clone() puppetRef {
@@ -255,6 +273,7 @@ func puppetCompileFor(tokens []string, ref *puppetRef, val string, E, puppetAddr
 				out = append(out, puppetCall(mode, stk, big.NewInt(0), in)...)
 				st.dE.Sub(st.dE, amt)
 				st.bondE.Add(st.bondE, amt)
+				st.payE()
 				if inReverted {
 					sc.precompileInReverted = true
 				} else {
@@ -266,6 +285,7 @@ func puppetCompileFor(tokens []string, ref *puppetRef, val string, E, puppetAddr
 				out = append(out, puppetCall(1, stk, big.NewInt(0), in)...)
 				st.dP.Sub(st.dP, amt)
 				st.bondP.Add(st.bondP, amt)
+				st.payP()
 				if inReverted {
 					sc.precompileInReverted = true
 				}
@@ -281,6 +301,7 @@ func puppetCompileFor(tokens []string, ref *puppetRef, val string, E, puppetAddr
 				in, _ := sabi.Pack("undelegate", E, val, amt)
 				out = append(out, puppetCall(0, stk, big.NewInt(0), in)...)
 				st.bondE.Sub(st.bondE, amt)
+				st.payE()
 				if inReverted {
 					sc.precompileInReverted = true
 				}
@@ -288,6 +309,16 @@ func puppetCompileFor(tokens []string, ref *puppetRef, val string, E, puppetAddr
 				in, _ := dabi.Pack("withdrawDelegatorRewards", puppetAddr, val)
 				out = append(out, puppetCall(1, dst, big.NewInt(0), in)...)
 				sc.withdraw = true
+				st.payP()
+				if inReverted {
+					sc.precompileInReverted = true
+				}
+			case f[0] == "C":
+				// distribution.claimRewards(puppet, 10): the contract's own rewards at every validator it delegates to
+				in, _ := dabi.Pack("claimRewards", puppetAddr, uint32(10))
+				out = append(out, puppetCall(1, dst, big.NewInt(0), in)...)
+				sc.withdraw = true
+				st.payP()
 				if inReverted {
 					sc.precompileInReverted = true
 				}
